@@ -116,6 +116,8 @@ func (l *Live) LiveFiles(rn *Runner) []*File {
 //
 //	.evicted-file-was-pinned         the chunk belongs to an evicted file whose reference was listed as pinned
 //	                                 (a pinned cached file re-enters the gc index when more of it is fetched)
+//	.evicted-file-was-uploaded       the chunk belongs to an evicted file that was ALSO uploaded locally (cached first: the upload
+//	                                 leaves the root in the gc index)
 //	.shared-with-unregistered-upload the chunk belongs to a /bytes upload, which chunkinfo's reference counts do not know
 //	.after-unpin                     the chunk belongs to an uploaded file that went through pin + unpin (unpin enters it into the gc index)
 //	.other                           none of these
@@ -159,6 +161,11 @@ func (o *C12Oracle) Check(ctx *core.Ctx, ev *Event) {
 		for _, f := range evicted {
 			if f.HasAddr(addr) && listed[f.Root.String()] {
 				return "evicted-file-was-pinned"
+			}
+		}
+		for _, f := range evicted {
+			if f.HasAddr(addr) && f.AtN {
+				return "evicted-file-was-uploaded"
 			}
 		}
 		for _, f := range rn.Files() {
